@@ -137,6 +137,197 @@ def deepestOracle (ds : List Rat) (out : List String) : String :=
         else "pass"
   | _, _ => "fail unparsable-output"
 
+
+/-! ### pose sequences of primitive pairs through the real dispatcher -/
+
+/-- kinds: 0 ball/ball · 1 cuboid/ball · 2 ball/cuboid · 3 halfspace/cuboid · 4 cuboid/halfspace ·
+5 halfspace/capsule(y) · 6 capsule(y)/halfspace · 7 halfspace/round-cuboid · 8 round-cuboid/halfspace.
+`a`, `b`: the three parameters of shape 1 / shape 2 (ball `(r,·,·)`, cuboid `he`, halfspace `n`,
+capsule `(half_height, radius, ·)`), `e`: border radius of the round cuboid. -/
+structure Seq3 where
+  kind : Nat
+  a : V3 Float
+  b : V3 Float
+  e : Float
+  pred : Float
+  poses : List (Iso3 Float)
+  /-- observed one-shot `contact` per pose: `(is_some, dist)` (absent when parsing plain args) -/
+  oneshot : List (Bool × Float)
+
+def pseq3 : P Seq3 := do
+  let k ← pnat; let a ← pv3; let b ← pv3; let e ← pf; let pr ← pf
+  let poses ← plist piso3
+  let rec os : Nat → P (List (Bool × Float))
+    | 0 => pure []
+    | n+1 => do let f ← pbool; let d ← pfo; let r ← os n; pure ((f, d) :: r)
+  let o ← (os poses.length) <|> pure []
+  pure ⟨k, a, b, e, pr, poses, o⟩
+
+def capA (hh : Float) : V3 Float := ⟨0.0, -hh, 0.0⟩
+def capB (hh : Float) : V3 Float := ⟨0.0, hh, 0.0⟩
+
+/-- one dispatcher call for a 3-D pair kind -/
+def seqGen3 (s : Seq3) (pos12 : Iso3 Float) (m : Manifold3 Float) : Manifold3 Float :=
+  match s.kind with
+  | 0 => ballBall3 pos12 s.a.x s.b.x s.pred m
+  | 1 => convexBallShapes3 (cuboidProject3 s.a) false pos12 s.b.x s.pred m
+  | 2 => convexBallShapes3 (cuboidProject3 s.b) true pos12 s.a.x s.pred m
+  | 3 => halfspaceDispatch3 (cuboidSupportFace3 s.b) true pos12 s.a 0.0 s.pred
+  | 4 => halfspaceDispatch3 (cuboidSupportFace3 s.a) false pos12 s.b 0.0 s.pred
+  | 5 => halfspaceDispatch3 (segmentFeature3 (capA s.b.x) (capB s.b.x)) true pos12 s.a s.b.y s.pred
+  | 6 => halfspaceDispatch3 (segmentFeature3 (capA s.a.x) (capB s.a.x)) false pos12 s.b s.a.y s.pred
+  | 7 => halfspaceDispatch3 (cuboidSupportFace3 s.b) true pos12 s.a s.e s.pred
+  | _ => halfspaceDispatch3 (cuboidSupportFace3 s.a) false pos12 s.b s.e s.pred
+
+def seqModel3 (s : Seq3) : String :=
+  String.intercalate " " ((runSeq (seqGen3 s) Manifold3.new s.poses).map fman3)
+
+/-! #### exact shape predicates for the sequence oracle (specification side, independent of the model) -/
+
+inductive Sh3 where
+  | ball (r : Rat)
+  /-- `surf`: the witness must lie on the surface (projection target), not merely inside -/
+  | cuboid (he : V3 Rat) (br : Rat) (surf : Bool := false)
+  | halfspace (n : V3 Rat)
+  | capsule (hh r : Rat)
+
+def seqShapes3 (s : Seq3) : Sh3 × Sh3 :=
+  let a := q3 s.a; let b := q3 s.b; let e := q s.e
+  match s.kind with
+  | 0 => (.ball a.x, .ball b.x)
+  | 1 => (.cuboid a 0 true, .ball b.x)
+  | 2 => (.ball a.x, .cuboid b 0 true)
+  | 3 => (.halfspace a, .cuboid b 0)
+  | 4 => (.cuboid a 0, .halfspace b)
+  | 5 => (.halfspace a, .capsule b.x b.y)
+  | 6 => (.capsule a.x a.y, .halfspace b)
+  | 7 => (.halfspace a, .cuboid b e)
+  | _ => (.cuboid a e, .halfspace b)
+
+def clampR (x lo hi : Rat) : Rat := if x < lo then lo else if hi < x then hi else x
+/-- squared distance from `p` to the cuboid `[-he, he]` -/
+def cuboidDistSq (he p : V3 Rat) : Rat :=
+  let c : V3 Rat := ⟨clampR p.x (-he.x) he.x, clampR p.y (-he.y) he.y, clampR p.z (-he.z) he.z⟩
+  (p.sub c).normSq
+/-- squared distance from `p` to the segment `(0,-hh,0)-(0,hh,0)` -/
+def capsuleAxisDistSq (hh : Rat) (p : V3 Rat) : Rat :=
+  let c : V3 Rat := ⟨0, clampR p.y (-hh) hh, 0⟩
+  (p.sub c).normSq
+
+/-- `p` is a witness *on* the shape (boundary, within `tol`): the property's "contact points belong to
+their shapes".  Returns a reason on failure. -/
+def onShape3 (sh : Sh3) (p : V3 Rat) (tol : Rat) : Option String :=
+  match sh with
+  | .ball r => if close p.normSq (r * r) tol then none else some s!"not-on-ball |p|²={p.normSq} r²={r*r}"
+  | .cuboid he br surf =>
+    -- inside the rounded cuboid
+    let d2 := cuboidDistSq he p
+    if !(leTol d2 (br * br) tol) then some s!"outside-cuboid d²={d2}"
+    else if surf && !(leTol (min (min (he.x - rabs p.x) (he.y - rabs p.y)) (he.z - rabs p.z)) 0 tol) then some "not-on-cuboid-surface"
+    else none
+  | .halfspace n =>
+    let d := n.dot p
+    if close d 0 tol then none else some s!"not-on-plane n·p={d}"
+  | .capsule hh r =>
+    let d2 := capsuleAxisDistSq hh p
+    if leTol d2 (r * r) tol then none else some s!"outside-capsule d²={d2}"
+
+def vertsCuboid (he : V3 Rat) : List (V3 Rat) :=
+  [he.x, -he.x].flatMap fun x => [he.y, -he.y].flatMap fun y => [he.z, -he.z].map fun z => ⟨x, y, z⟩
+
+/-- exact signed distance between the two shapes at pose `M` (shape 2 in the frame of shape 1), by the
+definition of each pair (square roots through `Rat.sqrtApprox`, error < 1e-11). -/
+def exactDist3 (sh : Sh3 × Sh3) (M : Iso3 Rat) : Rat :=
+  let sq := Rat.sqrtApprox
+  match sh with
+  | (.ball r1, .ball r2) => sq M.t.normSq - r1 - r2
+  | (.cuboid he _ _, .ball r) =>
+    let c := M.t
+    let d2 := cuboidDistSq he c
+    if d2 > 0 then sq d2 - r
+    else -(min (min (he.x - rabs c.x) (he.y - rabs c.y)) (he.z - rabs c.z)) - r
+  | (.ball r, .cuboid he _ _) =>
+    let c := M.invAct V3.zero
+    let d2 := cuboidDistSq he c
+    if d2 > 0 then sq d2 - r
+    else -(min (min (he.x - rabs c.x) (he.y - rabs c.y)) (he.z - rabs c.z)) - r
+  | (.halfspace n, .cuboid he br _) =>
+    ((vertsCuboid he).map fun v => n.dot (M.act v)).foldl min (n.dot (M.act he)) - br
+  | (.cuboid he br _, .halfspace n) =>
+    ((vertsCuboid he).map fun v => n.dot (M.invAct v)).foldl min (n.dot (M.invAct he)) - br
+  | (.halfspace n, .capsule hh r) =>
+    min (n.dot (M.act ⟨0, -hh, 0⟩)) (n.dot (M.act ⟨0, hh, 0⟩)) - r
+  | (.capsule hh r, .halfspace n) =>
+    min (n.dot (M.invAct ⟨0, -hh, 0⟩)) (n.dot (M.invAct ⟨0, hh, 0⟩)) - r
+  | _ => 0
+
+def cos1degR : Rat := 99984769515 / 100000000000
+
+/-- the property's per-call oracle on a primitive-pair manifold `m` at pose `pos12`:
+unit normals, opposite within 1°, `dist` identity, witnesses on shapes (`drift` = allowed warm-start drift,
+0 for the closed-form generators), presence and depth of the deepest contact against the exact distance
+and against the observed one-shot `contact`. -/
+def manifoldOracle3 (sh : Sh3 × Sh3) (pos12 : Iso3 Float) (pred : Float) (m : Manifold3 Float)
+    (os : Option (Bool × Float)) (drift : Rat) (exactKnown : Bool) : Option String :=
+  if !(finm3 m) then some "nonfinite-output" else
+  let M := qiso3 pos12
+  let P := q pred
+  let n1 := q3 m.n1; let n2 := q3 m.n2
+  let pts := m.points.map qc3
+  let tol : Rat := tolDefault
+  let wtol : Rat := tol + drift
+  let D := exactDist3 sh M
+  let deep : Option Rat := pts.foldl (fun acc c => match acc with | none => some c.dist | some d => some (min d c.dist)) none
+  let presence : Option String :=
+    if !exactKnown then none else
+    match deep with
+    | none => if D < P - (1 / 1000000) * (1 + rabs D + rabs P) then some s!"no-contact-but-exact-dist={D}<prediction" else none
+    | some d =>
+      if !(close d D ((1 / 1000000 : Rat) + drift)) then some s!"deepest={d} exact={D}" else none
+  let oneshot : Option String :=
+    match os, deep with
+    | some (true, od), some d =>
+      if close d (q od) ((1 / 1000000 : Rat) + drift) then none else some s!"deepest={d} one-shot={q od}"
+    | some (true, od), none =>
+      if q od < P - (1 / 1000000) * (1 + rabs (q od) + rabs P) then some s!"no-contact-but-one-shot={q od}" else none
+    | some (false, _), some d =>
+      if d < P - (1 / 1000000) * (1 + rabs d + rabs P) then some s!"contact-dist={d}-but-one-shot-none" else none
+    | _, _ => none
+  if pts.isEmpty then (presence <|> oneshot) else
+  if !(close (n1.dot n1) 1 tol) then some s!"n1-not-unit {n1.dot n1}" else
+  if !(close (n2.dot n2) 1 tol) then some s!"n2-not-unit {n2.dot n2}" else
+  if !(leTol cos1degR (-(n1.dot (M.rot n2))) tol) then some s!"normals-not-opposite cos={-(n1.dot (M.rot n2))}" else
+  let bad := pts.filterMap fun c =>
+    let d := ((M.act c.p2).sub c.p1).dot n1
+    if !(close c.dist d tol) then some s!"dist-identity dist={c.dist} expected={d}"
+    else match onShape3 sh.1 c.p1 wtol with
+      | some r => some s!"p1-{r}"
+      | none => match onShape3 sh.2 c.p2 wtol with
+        | some r => some s!"p2-{r}"
+        | none => if leTol c.dist P tol then none else some s!"dist={c.dist}>prediction"
+  match bad with
+  | b :: _ => some b
+  | [] => presence <|> oneshot
+
+def seqOracle3 (s : Seq3) (ms : List (Manifold3 Float)) : String :=
+  if ms.length != s.poses.length then "fail wrong-number-of-calls" else
+  if s.kind > 8 then "skip unknown-kind" else
+  let sh := seqShapes3 s
+  let rec go : Nat → List (Iso3 Float) → List (Manifold3 Float) → Option String
+    | _, [], _ => none
+    | _, _, [] => none
+    | i, p :: ps, m :: ms =>
+      match manifoldOracle3 sh p s.pred m (s.oneshot[i]?) 0 true with
+      | some r => some s!"call={i} {r}"
+      | none => go (i + 1) ps ms
+  match go 0 s.poses ms with
+  | some r => s!"fail {r}"
+  | none => "pass"
+
+def pmanlist3 : Nat → P (List (Manifold3 Float))
+  | 0 => pure []
+  | n+1 => do let m ← poman3; let r ← pmanlist3 n; pure (m :: r)
+
 def handler (fn : String) : Option Handler :=
   match fn with
   | "tuc3" => some {
@@ -174,6 +365,23 @@ def handler (fn : String) : Option Handler :=
         | some m => withOut (do let r ← poman3; let s ← poman3; pure (r, s)) o fun (r, s) =>
             if fman3 r == fman3 m && s.points.isEmpty && fv3 s.n1 == fv3 m.n1 && fv3 s.n2 == fv3 m.n2 then "pass"
             else "fail take-spec"
+        | none => "skip bad-args" }
+  | "bb3" => some {
+      model := fun a => run (do let p ← piso3; let r1 ← pf; let r2 ← pf; let pr ← pf; let m ← pman3
+                                pure (fman3 (ballBall3 p r1 r2 pr m))) a
+      oracle := fun a o => match run (do let p ← piso3; let r1 ← pf; let r2 ← pf; let pr ← pf; let m ← pman3; pure (p, r1, r2, pr, m)) a with
+        | some (p, r1, r2, pr, m) => withOut poman3 o fun m' =>
+            -- only the first contact is the generator's; extra stale points of the input manifold are kept as they were
+            let m1 : Manifold3 Float := { m' with points := m'.points.take 1 }
+            if m'.points.length > 1 && m'.points.length != m.points.length then "fail point-count" else
+            match manifoldOracle3 (.ball (q r1), .ball (q r2)) p pr m1 none 0 true with
+            | some r => s!"fail {r}"
+            | none => "pass"
+        | none => "skip bad-args" }
+  | "seq3" => some {
+      model := fun a => run (do let s ← pseq3; pure (seqModel3 s)) a
+      oracle := fun a o => match run pseq3 a with
+        | some s => withOut (pmanlist3 s.poses.length) o (seqOracle3 s)
         | none => "skip bad-args" }
   | _ => none
 
